@@ -443,8 +443,13 @@ structure Earlier where
   st : PyState
   ops : List Op
   reads : Bool := false
+  /-- nothing ran: a program was generated under that layout (`FastSyncGroup.program` through `load()`; an earlier fast
+  group of the devices, or an earlier `FastSyncGroup` object over the same devices).  Generation asks `fmt_addr` of every
+  accessed variable while `current_data is None`, so no accessor is bound, and `fmt_addr` keeps nothing. -/
+  generated : Bool := false
 
 def Earlier.leaves (e : Earlier) (caches : List PvCache) : List PvCache :=
+  if e.generated then caches else
   if e.reads then (readEach e.vars e.st.data (List.range e.vars.length) caches []).2
   else cachesAfter e.vars ⟨e.st, caches⟩ e.ops
 
@@ -452,5 +457,14 @@ def Earlier.leaves (e : Earlier) (caches : List PvCache) : List PvCache :=
 def historyCaches (caches : List PvCache) : List Earlier → List PvCache
   | [] => caches
   | e :: es => historyCaches (e.leaves caches) es
+
+/-- what an answer of `fmt_addr` kept on the `PacketVar` object per device would make of the present layout: a variable
+whose object was compiled for the same device in an earlier generation keeps the assignment of that time.  The working
+tree keeps nothing (`progRun` takes the present `vars`); this is the counter-model of `generation_witness`. -/
+def memoVars (earlier vars : List Linked) : List Linked :=
+  vars.map fun l =>
+    match earlier.find? (fun e => e.obj == l.obj && e.dev == l.dev) with
+    | some e => { l with assign := e.assign }
+    | none => l
 
 end Ebv.ProcVar
